@@ -327,6 +327,9 @@ func textFacts() {
 		ast.Inspect(fd, func(n ast.Node) bool {
 			switch s := n.(type) {
 			case *ast.ForStmt:
+				if s.Cond == nil { // (a `for { … }`: nothing to read; the constants fall back, the translation ties decide)
+					return true
+				}
 				ast.Inspect(s.Cond, func(m ast.Node) bool {
 					if lit, ok := m.(*ast.BasicLit); ok && lit.Kind == token.CHAR {
 						if r, _, _, err := strconv.UnquoteChar(lit.Value[1:len(lit.Value)-1], '\''); err == nil {
@@ -354,15 +357,25 @@ func textFacts() {
 				for _, c := range s.Body.List {
 					cc := c.(*ast.CaseClause)
 					for _, e := range cc.List {
-						cases = append(cases, norm(e)+"=>"+norm(cc.Body[0]))
+						first := ""
+						if len(cc.Body) > 0 {
+							first = norm(cc.Body[0])
+						}
+						cases = append(cases, norm(e)+"=>"+first)
 					}
 				}
 				addStr("wsModeCases", strings.Join(cases, ";"), "reader.go SkipWhitespaces: the mode switch")
 			}
 			return true
 		})
-		addRaw("wsBytes", "List Nat", natList(ws), "reader.go: bytes skipped as whitespace")
-		addRaw("wsBreakBytes", "List Nat", natList(nl), "reader.go: bytes counted as line breaks")
+		// (when the loop is written differently the lists are not found: the pinned fallback values are emitted - see main -
+		// and the translation tie of SkipWhitespaces, Props/C10P.lean, decides whether the function still skips these bytes)
+		if len(ws) > 0 {
+			addRaw("wsBytes", "List Nat", natList(ws), "reader.go: bytes skipped as whitespace")
+		}
+		if len(nl) > 0 {
+			addRaw("wsBreakBytes", "List Nat", natList(nl), "reader.go: bytes counted as line breaks")
+		}
 	} else {
 		missing("SkipWhitespaces")
 	}
